@@ -124,6 +124,18 @@ Proof.
   split; [intros ->; auto|]. split; destruct (handle_of s e); auto.
 Qed.
 
+(* one iteration of the event loop never programs a poll timeout that passes a pending timer *)
+Lemma loop_never_oversleeps : forall E s t1 d m c s' evs, Inv E s -> no_setnow E ->
+  loop E s t1 d m c = (s', evs) ->
+  forall tnow snow r, In (ELoop tnow snow r) evs ->
+    tnow = t1 + d /\ snow = t1 + d /\ now s' = t1 + d /\ 0 <= r <= Z.max m 0 /\
+    forall e dd, due s' e dd -> r = 0 \/ tnow + r <= dd.
+Proof. exact ProofsRun.loop_never_oversleeps. Qed.
+
+Lemma loop_refines : forall E s t1 d m c s' evs, Inv E s -> loop E s t1 d m c = (s', evs) ->
+  Inv E s' /\ LoopIter E s t1 d m c evs s'.
+Proof. exact ProofsRun.loop_refines. Qed.
+
 (* constants re-extracted from scheduler.cc *)
 Definition params_ok : bool :=
   (0 <? Params.sched_min_days_wait) && (Params.sched_min_days_wait =? Params.sched_min_days_update) &&
@@ -171,4 +183,21 @@ Proof.
   - eexists. vm_compute. split; [right; left; reflexivity|split; reflexivity].
   - eexists. vm_compute. split; [left; reflexivity|split; reflexivity].
   - split; [|split]; eexists; vm_compute; reflexivity.
+Qed.
+
+(* a timer that becomes due while call_events is busy (clock B+1 -> B+301) fires in the same
+   iteration; the next poll timeout is measured from the refreshed clock: 1000 - 301 = 699 *)
+Definition exE2 : env := mkEnv [[]; [UpdFor 0%nat 5]] [true; true] 8.
+Definition exS2 : state := fst (run exE2 (init 2) [Basic (WaitUntil 0%nat (B + 1000)); Basic (WaitUntil 1%nat (B + 50))]).
+
+Example ex_loop_hyp : Inv exE2 exS2 /\ no_setnow exE2 /\ exists s',
+  loop exE2 exS2 (B + 1) 300 600000000 None = (s', [EFire 1%nat (B + 50); EOut OOk; ELoop (B + 301) (B + 301) 5]).
+Proof.
+  split; [|split].
+  - eapply heap_ok_inv with (n := 2%nat); [|apply surjective_pairing].
+    intros e. destruct e as [|[|e]]; simpl; intros; try lia. destruct e; discriminate.
+  - intros e b. unfold script. destruct e as [|[|e]]; simpl; try tauto.
+    + intros [<-|[]]. reflexivity.
+    + destruct e; simpl; tauto.
+  - eexists. vm_compute. reflexivity.
 Qed.
